@@ -17,6 +17,7 @@ EXPLANATION = (
     "variable after its loop; (F1) save_musicxml does not mutate its argument; (GROUPS) every part-group start pushed on "
     "the stack is paired with a stop emitted when it is popped, and the stack is drained after the last part; "
     "(F4d/F7a/F8a) call conformance, definite assignment, library linkage in both modules."
+    ' (TIE-key) ties are paired by pitch alone on import.'
 )
 NOT_DECIDED = [
     "equality of scores after a round trip; position bookkeeping with backup/forward; voice re-assignment; chord tagging; "
